@@ -497,6 +497,15 @@ func (o *operation) validate(transcoder *Transcoder) error {
 	return nil
 }
 
+// bufferLimit returns the configured message buffer limit, or -1 if the operation
+// has no method configuration.
+func (o *operation) bufferLimit() int64 {
+	if o.methodConf == nil {
+		return -1
+	}
+	return int64(o.methodConf.maxMsgBufferBytes)
+}
+
 func (o *operation) queryValues() url.Values {
 	if o.queryVars == nil && o.request.URL.RawQuery != "" {
 		o.queryVars = o.request.URL.Query()
@@ -1662,7 +1671,7 @@ func (w *envelopingWriter) handleTrailer() error {
 	if w.trailerIsCompressed && data.Len() > 0 {
 		uncompressed := w.rw.op.bufferPool.Get()
 		defer w.rw.op.bufferPool.Put(uncompressed)
-		if err := w.rw.op.server.respCompression.decompress(uncompressed, data); err != nil {
+		if err := w.rw.op.server.respCompression.decompressLimited(uncompressed, data, int64(w.rw.op.methodConf.maxMsgBufferBytes)); err != nil {
 			w.rw.reportError(err)
 			return err
 		}
@@ -1792,7 +1801,7 @@ func (w *transformingWriter) flushMessage() error {
 		if w.latestEnvelope.compressed && w.buffer.Len() > 0 {
 			data = w.rw.op.bufferPool.Get()
 			defer w.rw.op.bufferPool.Put(data)
-			if err := w.rw.op.server.respCompression.decompress(data, w.buffer); err != nil {
+			if err := w.rw.op.server.respCompression.decompressLimited(data, w.buffer, int64(w.rw.op.methodConf.maxMsgBufferBytes)); err != nil {
 				return err
 			}
 		}
@@ -1881,7 +1890,7 @@ func (e *errorWriter) Close() error {
 	if compressPool := e.rw.op.server.respCompression; compressPool != nil && body.Len() > 0 {
 		uncompressed := bufferPool.Get()
 		defer bufferPool.Put(uncompressed)
-		if err := compressPool.decompress(uncompressed, body); err != nil {
+		if err := compressPool.decompressLimited(uncompressed, body, int64(e.rw.op.methodConf.maxMsgBufferBytes)); err != nil {
 			// can't really just return an error; we have to encode the
 			// error into the RPC response, so we populate respMeta.end
 			if e.respMeta.end.httpCode == 0 || e.respMeta.end.httpCode == http.StatusOK {
@@ -2163,7 +2172,7 @@ func (m *message) decompress(op *operation) error {
 		return nil
 	}
 	tmp := op.bufferPool.Get()
-	if err := pool.decompress(tmp, m.buf); err != nil {
+	if err := pool.decompressLimited(tmp, m.buf, op.bufferLimit()); err != nil {
 		op.bufferPool.Put(tmp)
 		return err
 	}
